@@ -250,8 +250,11 @@ func (gb GenBank) String() string {
 	for _, ref := range gb.Fields.References {
 		b.WriteString(fmt.Sprintf("REFERENCE   %d", ref.Number))
 		if ref.Info != "" {
-			pad := strings.Repeat(" ", 3-len(strconv.Itoa(ref.Number)))
-			b.WriteString(pad + ref.Info)
+			padLength := 3 - len(strconv.Itoa(ref.Number))
+			if padLength < 0 {
+				padLength = 0
+			}
+			b.WriteString(strings.Repeat(" ", padLength) + ref.Info)
 		}
 		b.WriteByte('\n')
 		if ref.Authors != "" {
